@@ -282,4 +282,40 @@ def crun (eps : List EP) (uss : List (List Name)) (sys : Sys) (sched : List Nat)
 def usAt (uss : List (List Name)) (t : Nat) : List Name := (uss[t]?).getD []
 
 
+/-! ## the load-balancer map under a concurrent Sync (finding C03-lb-reset-race)
+
+`Pop` calls `loadbalancer.LoadOrStore`; when the key is new (always, right after a reset) `sync.Map` takes its internal
+mutex: `m.mu.Lock() … m.mu.Unlock()`.  `syncEndpoints` resets the cursors when the server set changed.  What the reset
+does to that mutex is the parameter `inPlace`: `false` is the assignment `c.loadbalancer = sync.Map{}` (the whole struct,
+mutex included, is overwritten with zeroes), `true` is emptying the map in place (`Range` + `Delete`), which never
+touches a mutex somebody else holds.  Unlocking a mutex that is not locked is Go's unrecoverable
+`fatal error: sync: unlock of unlocked mutex`. -/
+
+inductive RaceAct
+  | popLock (t : Nat)      -- picker `t`: `m.mu.Lock()` inside LoadOrStore
+  | popUnlock (t : Nat)    -- picker `t`: `m.mu.Unlock()`
+  | syncReset              -- `syncEndpoints`: the reset of `loadbalancer`
+deriving DecidableEq, Repr
+
+structure RaceSys where
+  muLocked : Bool
+  holder : Option Nat
+  fatal : Bool
+deriving DecidableEq, Repr
+
+def RaceSys.init : RaceSys := { muLocked := false, holder := none, fatal := false }
+
+def raceStep (inPlace : Bool) (s : RaceSys) : RaceAct → RaceSys
+  | .popLock t =>
+    if s.fatal || s.muLocked || s.holder.isSome then s   -- dead, or blocked on the mutex, or somebody is inside
+    else { s with muLocked := true, holder := some t }
+  | .popUnlock t =>
+    if s.fatal || s.holder != some t then s
+    else if s.muLocked then { s with muLocked := false, holder := none }
+    else { s with fatal := true, holder := none }
+  | .syncReset =>
+    if inPlace then s else { s with muLocked := false }
+
+def raceRun (inPlace : Bool) (acts : List RaceAct) : RaceSys := acts.foldl (raceStep inPlace) RaceSys.init
+
 end KG.Model.Endpoints
